@@ -119,39 +119,58 @@ theorem C15_encodable_refuted_without_label_test :
 /-- the repaired decoder rejects that datagram as an invalid message (and the listener drops it) -/
 example : (parse d8Datagram).parsed?.map (·.valid) = some false := by decide +kernel
 
+/-- **The encoder is total on safe messages**: `DNSOutgoing.packets()` raises nothing — not
+`NamePartTooLongException`, not `struct.error`, not the `IndexError` of a compression pointer beyond
+0x3FFF (every names-table entry stays below 8966 + 2·1100 + 16), not `ValueError` of an NSEC bitmap —
+when every label is ≤ 63 bytes, every name ≤ 1100 bytes on the wire, 16/32-bit fields are in range,
+character strings ≤ 255 bytes and NSEC type lists well formed (`MsgSafe`). -/
+theorem C15_encoder_total (m : Encode.Msg) (hm : MsgSafe m) : ∃ pks, Encode.packets m = .ok pks :=
+  packets_total m hm
+
+/-- **The legacy-unicast reply can always be built**: whatever datagram the query came in, echoing
+the questions of the decoded object next to any safe answer set yields datagrams — the D8 raise
+site is unreachable, and so is every other raise site of the encoder. -/
+theorem C15_echo_total (data : Bytes) (p : Parsed) (h : (parse data).out = .ok p) (a : AnswerSet) (ha : SetSafe a) (u : Bool) :
+    ∃ pks, Encode.packets (unicastMsg a u p.questions p.hdr.id) = .ok pks := by
+  obtain ⟨p', hp', hk⟩ := parse_pkt data 0
+  rw [h] at hp'
+  cases hp'
+  exact packets_total _ (unicastMsg_safe a u p.questions p.hdr.id ha (questions_ok hk) hk.2.2.2.1)
+
 /-- **Survival, one block** (`_partial`: the record manager with its listeners, the answer
-computation and the queues are uninterpreted; `DownOK`/`SendOK` name what is assumed of them —
-they accept every decoder product, preserve their invariant `I`, and their answer sets can be
-encoded next to any echo of encodable questions).  Under the host invariant (`I` downstream;
+computation and the queues are uninterpreted; `DownOK` names what is assumed of them — they accept
+every decoder product (`PktOK`: names encodable and ≤ 253 characters, 16-bit id and question types,
+`answers()` returned), preserve their invariant `I`, and the records they hand to the encoder are
+safe (`QASafe`, a data invariant of the registry)).  Under the host invariant (`I` downstream;
 `LInv`: a TC timer is armed only for an address with a deferred packet, every deferred packet is a
 decoder product) **`datagram_received` returns normally for every byte string, source address,
-source port, clock reading and random draw, and re-establishes the invariant.**  The raise sites
-inside the modelled part are all discharged: decoder exceptions (C02), the lazy `answers()`,
-`packets[0]`, and `NamePartTooLongException` of the echoed questions (`C15_encodable` feeds
-`SendOK`'s precondition). -/
-theorem C15_total_partial {D : Down σ ω} {I : σ → Prop} {S : QA → Prop} (hD : DownOK D I S) (hS : SendOK S)
+source port, clock reading and random draw, and re-establishes the invariant.**  Every raise site
+inside the modelled part is discharged: decoder exceptions (C02), the lazy `answers()`,
+`packets[0]`, and the whole encoder — including `NamePartTooLongException` of the echoed questions
+(`C15_encodable`) — by `C15_encoder_total`. -/
+theorem C15_total_partial {D : Down σ ω} {I : σ → Prop} (hD : DownOK D I QASafe)
     (s : State σ) (hI : I s.down) (hL : LInv s) (data : Bytes) (addr : Addr) (port : Nat) (now : Ms) (draw : Nat) :
     ∃ s' out tag, recv D s data addr port now draw = .ok (s', out, tag) ∧ I s'.down ∧ LInv s' :=
-  recv_ok hD hS s data addr port now draw hI hL
+  recv_ok hD sendOK_safe s data addr port now draw hI hL
 
 /-- the deferred-query timer of an address with an armed timer likewise: `packets[0]` exists because
 `LInv` holds (this is the invariant C16 left open as `TimerInv`) -/
-theorem C15_timer_partial {D : Down σ ω} {I : σ → Prop} {S : QA → Prop} (hD : DownOK D I S) (hS : SendOK S)
+theorem C15_timer_partial {D : Down σ ω} {I : σ → Prop} (hD : DownOK D I QASafe)
     (s : State σ) (hI : I s.down) (hL : LInv s) (addr : Addr) (t : TcTimer) (ht : alGet addr s.timers = some t) :
     ∃ s' out tag, tcFire D s addr = .ok (s', out, tag) ∧ I s'.down ∧ LInv s' :=
-  tcFire_ok hD hS s addr t ht hI hL
+  tcFire_ok hD sendOK_safe s addr t ht hI hL
 
 /-- **Survival, every history** (`_partial`, same hypotheses, plus: every other block of the host
 preserves `I` without raising).  From the initial state, any finite interleaving of datagram
 arrivals (any bytes, source, port, time), deferred-query timers and other blocks runs to the end
 without an exception and ends in a state satisfying the invariant — the only `.error` is the
 marker for a history that fires a timer which is not armed, which the event loop never does. -/
-theorem C15_history_partial {β : Type} {D : Down σ ω} {I : σ → Prop} {S : QA → Prop} (hD : DownOK D I S) (hS : SendOK S)
+theorem C15_history_partial {β : Type} {D : Down σ ω} {I : σ → Prop} (hD : DownOK D I QASafe)
     (other : σ → β → Except PyExc (σ × List ω)) (hO : ∀ d b, I d → ∃ d' o, other d b = .ok (d', o) ∧ I d')
     (d0 : σ) (h0 : I d0) (bs : List (Survive.Block β)) :
     (∃ s' out, run D other (State.init d0) bs = .ok (s', out) ∧ I s'.down ∧ LInv s') ∨
       run D other (State.init d0) bs = .error .keyError :=
-  run_ok hD hS other hO bs (State.init d0) h0 (LInv.init d0)
+  run_ok hD sendOK_safe other hO bs (State.init d0) h0 (LInv.init d0)
 
 /-- the full-strength statement of DESIGN §7 (no hypotheses on the downstream components): not proved
 here — it needs the C03/C05/C06/C04/C12 models composed into one `Down` instance. -/
@@ -160,6 +179,32 @@ def C15_total_full (D : Down σ ω) (I : σ → Prop) : Prop :=
     ∃ s' out tag, recv D s data addr port now draw = .ok (s', out, tag) ∧ I s'.down ∧ LInv s'
 
 /-! ### non-vacuity -/
+
+/-- a registry record (`ha.local. A 10.0.0.1`, cache-flush, TTL 120) and a downstream that answers
+every query with it, by unicast and by immediate multicast -/
+def exRec : Encode.ERecord := ⟨[[104, 97], [108, 111, 99, 97, 108]], 1, 1, true, 120, 0, .addr [10, 0, 0, 1]⟩
+
+def exDown : Down Unit String where
+  ingest s _ := .ok (s, ["R"])
+  hasEntries _ := true
+  answer s _ _ := .ok (s, some ⟨⟨[exRec], []⟩, ⟨[exRec], []⟩, false, false⟩)
+  enqueue s _ _ := (s, [])
+
+/-- `DownOK` is satisfiable by a downstream that really answers -/
+example : DownOK exDown (fun _ => True) QASafe :=
+  ⟨fun d _ _ _ => ⟨d, ["R"], rfl, trivial⟩,
+   fun d _ _ _ _ _ => ⟨d, _, rfl, trivial, by
+     intro q hq
+     cases hq
+     exact ⟨⟨by decide, by decide⟩, ⟨by decide, by decide⟩⟩⟩,
+   fun _ _ _ _ => trivial⟩
+
+/-- and on it a legacy-unicast query (port 40000, question `?_a._tcp.local PTR`) is answered inside
+the block by one unicast datagram carrying the echoed question, plus one multicast -/
+example : (match recv exDown (State.init ()) ([0, 7, 0, 0, 0, 1, 0, 0, 0, 0, 0, 0] ++
+      [2, 95, 97, 4, 95, 116, 99, 112, 5, 108, 111, 99, 97, 108, 0, 0, 12, 0, 1]) "10.9.9.9" 40000 1000 0 with
+    | .ok (_, [Out.unicast _ 40000 [pk], Out.multicast [_]], .responded 1) => pk.take 6 == [0, 7, 0x84, 0, 0, 1]
+    | _ => false) = true := by decide +kernel
 
 /-- the invariant is not empty: a state with a deferred packet and its armed timer satisfies `LInv` -/
 example : ∃ k : Pkt, PktOK k ∧ LInv (σ := Unit) ⟨none, 0, none, [("10.0.0.9", [k])], [("10.0.0.9", ⟨450, 5353⟩)], ()⟩ := by
